@@ -117,17 +117,29 @@ structure SpRel (a : State) (ta : TmpStore) (n : Nat) (s : State) : Prop where
     (∀ q, q < ta.position → t.entries[q]? = ta.entries[q]?) ∧
     (∀ k i, a.cache.get k = some i → s.cache.get k = some i) ∧
     (∀ k, a.cache.get k ≠ none → t.creating.has k = true → ta.creating.has k = true)
+  nextOid : a.nextOid ≤ s.nextOid
+  fresh : ∀ i k, (a.objs i).oid = none → (s.objs i).oid = some k → a.nextOid ≤ k
+
+theorem SpRel.oids {a : State} {ta : TmpStore} {n : Nat} {s s' : State} (h : SpRel a ta n s)
+    (ho : OidStep s s') :
+    a.nextOid ≤ s'.nextOid ∧ ∀ i k, (a.objs i).oid = none → (s'.objs i).oid = some k → a.nextOid ≤ k := by
+  refine ⟨Nat.le_trans h.nextOid ho.2, ?_⟩
+  intro i k h0 hk
+  rcases ho.1 i k hk with h1 | h1
+  · exact h.fresh i k h0 h1
+  · have := h.nextOid; omega
 
 theorem SpRel.start {a : State} {ta : TmpStore} {n : Nat} (hsp : a.sp = some ta)
     (hn : a.sps[n]? = some (SpEntry.real ta.position ta.index ta.creating)) : SpRel a ta n a :=
-  ⟨rfl, Or.inl hn, fun _ => ⟨ta, hsp, fun _ _ => rfl, fun _ _ h => h, fun _ _ h => h⟩⟩
+  ⟨rfl, Or.inl hn, fun _ => ⟨ta, hsp, fun _ _ => rfl, fun _ _ h => h, fun _ _ h => h⟩, Nat.le_refl _,
+    fun i k h0 hk => by rw [h0] at hk; cases hk⟩
 
 /-- steps that change neither the store nor the cache, and at most invalidate savepoints -/
 theorem SpRel.frame {a : State} {ta : TmpStore} {n : Nat} {s s' : State} (h : SpRel a ta n s)
-    (hsp : s'.sp = s.sp) (hc : s'.cache = s.cache) (hcm : s'.committed = s.committed)
+    (hsp : s'.sp = s.sp) (hc : s'.cache = s.cache) (hcm : s'.committed = s.committed) (ho : OidStep s s')
     (h1 : ∀ e, s.sps[n]? = some e → (e = SpEntry.real ta.position ta.index ta.creating ∨ e = SpEntry.invalid) →
       s'.sps[n]? = some e ∨ s'.sps[n]? = some SpEntry.invalid) : SpRel a ta n s' := by
-  refine ⟨by rw [hcm, h.committed], ?_, ?_⟩
+  refine ⟨by rw [hcm, h.committed], ?_, ?_, (h.oids ho).1, (h.oids ho).2⟩
   · rcases h.alive with h2 | h2
     · rcases h1 _ h2 (Or.inl rfl) with h3 | h3
       · exact Or.inl h3
@@ -143,9 +155,9 @@ theorem SpRel.frame {a : State} {ta : TmpStore} {n : Nat} {s s' : State} (h : Sp
       · rw [h3] at hn; cases hn
 
 theorem SpRel.stable {a : State} {ta : TmpStore} {n : Nat} {s s' : State} (h : SpRel a ta n s)
-    (hsp : s'.sp = s.sp) (hc : s'.cache = s.cache) (hcm : s'.committed = s.committed)
+    (hsp : s'.sp = s.sp) (hc : s'.cache = s.cache) (hcm : s'.committed = s.committed) (ho : OidStep s s')
     (hst : StableSps s s') : SpRel a ta n s' := by
-  refine h.frame hsp hc hcm ?_
+  refine h.frame hsp hc hcm ho ?_
   intro e he hcases
   left
   rcases hcases with rfl | rfl
@@ -194,7 +206,7 @@ theorem SpRel.rollback {a : State} {ta : TmpStore} {n : Nat} {s : State} (hr : S
   | none => exact hr
   | some e =>
     have hr0 : SpRel a ta n { s with sps := invalidateAfter m s.sps } :=
-      hr.frame rfl rfl rfl (fun e he _ => getElem?_invalidateAfter_some he)
+      hr.frame rfl rfl rfl (OidStep.refl _) (fun e he _ => getElem?_invalidateAfter_some he)
     cases e with
     | invalid => exact hr
     | abortSp j =>
@@ -209,7 +221,12 @@ theorem SpRel.rollback {a : State} {ta : TmpStore} {n : Nat} {s : State} (hr : S
           · rcases getElem?_invalidateAfter_some (m := m) h2 with h3 | h3 <;> exact h3
         have hsps := connAbort_sps { s with sps := invalidateAfter m s.sps }
         have hcm := shared_committed (connAbort_shared { s with sps := invalidateAfter m s.sps })
-        refine ⟨by rw [hcm]; exact hr.committed, Or.inr (by rw [hsps]; exact hinv), ?_⟩
+        have hos : OidStep s (connAbort { s with sps := invalidateAfter m s.sps }) :=
+          OidStep.of_shrink (s := { s with sps := invalidateAfter m s.sps })
+            (connAbort_clean (P := []) (s := { s with sps := invalidateAfter m s.sps })
+              (h.str.congr rfl rfl rfl rfl)).2
+        refine ⟨by rw [hcm]; exact hr.committed, Or.inr (by rw [hsps]; exact hinv), ?_,
+          (hr.oids hos).1, (hr.oids hos).2⟩
         intro hn
         rw [hsps] at hn
         have : (invalidateAfter m s.sps)[n]? = some (SpEntry.real ta.position ta.index ta.creating) := hn
@@ -223,7 +240,8 @@ theorem SpRel.rollback {a : State} {ta : TmpStore} {n : Nat} {s : State} (hr : S
       generalize rollbackSavepoint { s with sps := invalidateAfter m s.sps } p' idx' cr' = R at *
       have hsps : R.sps = invalidateAfter m s.sps := F.sps
       have hcm : R.committed = s.committed := shared_committed F.shared
-      refine ⟨by rw [hcm]; exact hr.committed, ?_, ?_⟩
+      have hos : OidStep s R := OidStep.of_shrink (s := { s with sps := invalidateAfter m s.sps }) F.clean.2
+      refine ⟨by rw [hcm]; exact hr.committed, ?_, ?_, (hr.oids hos).1, (hr.oids hos).2⟩
       · rw [hsps]; exact hr0.alive
       · intro hn
         rw [hsps] at hn
@@ -270,7 +288,7 @@ theorem SpRel.savepoint {a : State} {ta : TmpStore} {n : Nat} {s : State} (hr : 
   show SpRel a ta n (txnSavepoint bound s).1
   by_cases hn : s.needsToJoin = true
   · rw [txnSavepoint_unjoined hn]
-    exact hr.frame rfl rfl rfl (fun e he _ => Or.inl (getElem?_append_some he))
+    exact hr.frame rfl rfl rfl (OidStep.refl _) (fun e he _ => Or.inl (getElem?_append_some he))
   · have hj : s.needsToJoin = false := by simpa using hn
     cases hres : (connSavepoint bound s).2 with
     | some e =>
@@ -280,7 +298,7 @@ theorem SpRel.savepoint {a : State} {ta : TmpStore} {n : Nat} {s : State} (hr : 
       rw [txnSavepoint_ok hj bound hres]
       have ok := connSavepoint_spOk h hj bound hres
       generalize (connSavepoint bound s).1 = m at *
-      refine ⟨?_, ?_, ?_⟩
+      refine ⟨?_, ?_, ?_, (hr.oids ok.oidStep).1, (hr.oids ok.oidStep).2⟩
       · show m.committed = a.committed
         rw [shared_committed ok.shared]; exact hr.committed
       · show (m.sps ++ [spState m])[n]? = _ ∨ (m.sps ++ [spState m])[n]? = _
@@ -340,21 +358,21 @@ theorem SpRel.next {a : State} {ta : TmpStore} {n : Nat} {s : State} (hr : SpRel
       simp only [step]; split <;> rfl
     rw [stepH_of_notFailed _ _ _ h1, h2]
     obtain ⟨a1, a2, a3⟩ := access_tv s i
-    exact hr.stable a1 a2 (shared_committed (access_shared s i)) (Or.inl a3)
+    exact hr.stable a1 a2 (shared_committed (access_shared s i)) (access_oidStep s i) (Or.inl a3)
   | modify i v =>
     rw [stepH_of_notFailed bound s (.modify i v) (mutate_notFailed s i _)]
     obtain ⟨a1, a2, a3⟩ := mutate_tv s i (fun o => some (v, o.refs))
-    exact hr.stable a1 a2 (shared_committed (mutate_shared s i _)) a3
+    exact hr.stable a1 a2 (shared_committed (mutate_shared s i _)) (mutate_oidStep s i _) a3
   | link i j =>
     rw [stepH_of_notFailed bound s (.link i j) (mutate_notFailed s i _)]
     obtain ⟨a1, a2, a3⟩ := mutate_tv s i
       (fun o => if o.refs.contains j then none else some (o.val, o.refs ++ [j]))
-    exact hr.stable a1 a2 (shared_committed (mutate_shared s i _)) a3
+    exact hr.stable a1 a2 (shared_committed (mutate_shared s i _)) (mutate_oidStep s i _) a3
   | unlink i j =>
     rw [stepH_of_notFailed bound s (.unlink i j) (mutate_notFailed s i _)]
     obtain ⟨a1, a2, a3⟩ := mutate_tv s i
       (fun o => if o.refs.contains j then some (o.val, o.refs.filter (· != j)) else none)
-    exact hr.stable a1 a2 (shared_committed (mutate_shared s i _)) a3
+    exact hr.stable a1 a2 (shared_committed (mutate_shared s i _)) (mutate_oidStep s i _) a3
   | add i =>
     have hnf : (step bound s (.add i)).2.isFailed = false := by
       show (opAdd s i).2.isFailed = false
@@ -362,7 +380,7 @@ theorem SpRel.next {a : State} {ta : TmpStore} {n : Nat} {s : State} (hr : SpRel
       all_goals rfl
     rw [stepH_of_notFailed _ _ _ hnf]
     obtain ⟨a1, a2, a3⟩ := opAdd_tv s i
-    exact hr.stable a1 a2 (shared_committed (opAdd_shared s i)) a3
+    exact hr.stable a1 a2 (shared_committed (opAdd_shared s i)) (opAdd_oidStep s i) a3
   | commit f => simp [inTxn] at hin
   | abort => simp [inTxn] at hin
   | savepoint =>
@@ -400,12 +418,49 @@ theorem rollback_exact_core {a : State} {ta : TmpStore} {n : Nat} (ha : Inv12 a)
     (hanc : ∀ j, (a.objs j).status ≠ .changed) {s : State} (hs : Inv12 s) (hr : SpRel a ta n s)
     (hn : s.sps[n]? = some (SpEntry.real ta.position ta.index ta.creating)) :
     (txnRollback s n).2 = .ok ∧
-    ∀ i k, a.cache.get k = some i → reads (txnRollback s n).1 i = reads a i := by
+    (∀ i k, a.cache.get k = some i → reads (txnRollback s n).1 i = reads a i) ∧
+    (∀ i, (a.objs i).oid = none → ((txnRollback s n).1.objs i).oid = none) := by
   have heq : txnRollback s n = (rollbackSavepoint { s with sps := invalidateAfter n s.sps }
       ta.position ta.index ta.creating, .ok) := by
     unfold txnRollback; rw [hn]
   rw [heq]
-  refine ⟨rfl, ?_⟩
+  refine ⟨rfl, ?_, ?_⟩
+  rotate_left
+  · -- objects that did not belong to the connection at the savepoint do not belong to it now
+    intro i h0
+    have hinv := rollbackReal_inv12 hs hn
+    obtain ⟨t, hsp, hj, we, w⟩ := hs.real_entry hn
+    have hS' : Str [] { s with sps := invalidateAfter n s.sps } := hs.str.congr rfl rfl rfl rfl
+    have F := rollbackSavepoint_facts (s := { s with sps := invalidateAfter n s.sps }) hS' hsp
+      hs.regOid hs.changedReg hs.addedReg ta.position ta.index ta.creating
+    generalize rollbackSavepoint { s with sps := invalidateAfter n s.sps } ta.position ta.index ta.creating
+      = R at *
+    cases hk : (R.objs i).oid with
+    | none => rfl
+    | some k =>
+      exfalso
+      have hks : (s.objs i).oid = some k := by
+        rcases F.clean.2.oid i with h1 | h1
+        · rw [← hk, h1]
+        · rw [h1.1] at hk; cases hk
+      have hge := hr.fresh i k h0 hks
+      have hkn := hinv.str.known i k hk
+      simp only [List.not_mem_nil, or_false, F.addedNil, Map.get_nil] at hkn
+      have hcR : R.cache.get k = some i := by
+        rcases hkn with h1 | h1
+        · exact h1
+        · cases h1
+      rcases hinv.owned k i hcR with h1 | ⟨t', ht', h1⟩
+      · rw [shared_committed F.shared] at h1
+        have h2 : s.committed.get k ≠ none := h1
+        rw [hr.committed] at h2
+        have := ha.commFresh k h2
+        omega
+      · rw [F.sp] at ht'; cases ht'
+        have h2 : ta.creating.has k = true := h1
+        obtain ⟨i', hi'⟩ := (ha.tmp ta hasp).idxCached k ((ha.tmp ta hasp).crIdx k h2).1
+        have := ha.str.fresh i' k (ha.str.cacheS k i' hi')
+        omega
   intro i k hc
   have hinv := rollbackReal_inv12 hs hn
   obtain ⟨t, hsp, hj, we, w⟩ := hs.real_entry hn
@@ -507,8 +562,11 @@ theorem rollback_exact_prog {s1 : State} (hg : Good12 s1) (hj : s1.needsToJoin =
     (hok : (step bound s1 .savepoint).2 = .ok) (ops : List Op) {s : State}
     (hrun : runTxn bound (stepH bound s1 .savepoint) ops = some s)
     (hrb : (step bound s (.rollback s1.sps.length)).2 = .ok) :
-    ∀ i, ((stepH bound s1 .savepoint).objs i).jar = true →
-      reads (stepH bound s (.rollback s1.sps.length)) i = reads (stepH bound s1 .savepoint) i := by
+    (∀ i, ((stepH bound s1 .savepoint).objs i).jar = true →
+      reads (stepH bound s (.rollback s1.sps.length)) i = reads (stepH bound s1 .savepoint) i) ∧
+    (∀ i, ((stepH bound s1 .savepoint).objs i).jar = false →
+      ((stepH bound s (.rollback s1.sps.length)).objs i).jar = false ∧
+      ((stepH bound s (.rollback s1.sps.length)).objs i).oid = none) := by
   obtain ⟨ta, hasp, hn, hanc, hadd, _⟩ := savepoint_start hg hj bound hok
   have hga := stepH_good12 bound s1 .savepoint rfl hg
   generalize stepH bound s1 .savepoint = a at *
@@ -519,18 +577,30 @@ theorem rollback_exact_prog {s1 : State} (hg : Good12 s1) (hj : s1.needsToJoin =
     · have : (txnRollback s s1.sps.length).2 = .ok := hrb
       unfold txnRollback at this
       rw [h2] at this; cases this
-  obtain ⟨_, hcore⟩ := rollback_exact_core hga.1 hasp hanc hgs.1 hr hns
-  intro i hjar
-  rw [stepH_of_notFailed bound s (.rollback s1.sps.length) (txnRollback_notFailed s _)]
-  rw [hga.1.str.jarOid] at hjar
-  cases ho : (a.objs i).oid with
-  | none => rw [ho] at hjar; cases hjar
-  | some k =>
-    have hkn := hga.1.str.known i k ho
-    simp only [List.not_mem_nil, or_false, hadd, Map.get_nil] at hkn
-    rcases hkn with h1 | h1
-    · exact hcore i k h1
-    · cases h1
+  obtain ⟨_, hcore, hnew⟩ := rollback_exact_core hga.1 hasp hanc hgs.1 hr hns
+  have hgR := stepH_good12 bound s (.rollback s1.sps.length) rfl hgs
+  rw [stepH_of_notFailed bound s (.rollback s1.sps.length) (txnRollback_notFailed s _)] at hgR ⊢
+  constructor
+  · intro i hjar
+    rw [hga.1.str.jarOid] at hjar
+    cases ho : (a.objs i).oid with
+    | none => rw [ho] at hjar; cases hjar
+    | some k =>
+      have hkn := hga.1.str.known i k ho
+      simp only [List.not_mem_nil, or_false, hadd, Map.get_nil] at hkn
+      rcases hkn with h1 | h1
+      · exact hcore i k h1
+      · cases h1
+  · intro i hjar
+    rw [hga.1.str.jarOid] at hjar
+    have ho : (a.objs i).oid = none := by
+      cases ho : (a.objs i).oid with
+      | none => rfl
+      | some k => rw [ho] at hjar; cases hjar
+    have := hnew i ho
+    have h2 : ((step bound s (.rollback s1.sps.length)).1.objs i).oid = none := this
+    refine ⟨?_, h2⟩
+    rw [hgR.1.str.jarOid, h2]; rfl
 
 theorem rollbackSavepoint_sps (s : State) (p idx cr) : (rollbackSavepoint s p idx cr).sps = s.sps := by
   unfold rollbackSavepoint
@@ -599,5 +669,330 @@ theorem rollback_later_invalid {s : State} {n : Nat} (h : (txnRollback s n).2 = 
   generalize (txnRollback s n).1 = R at *
   unfold txnRollback
   rw [this]
+
+/-! ### a savepoint made before the connection joined the transaction (`AbortSavepoint`) -/
+
+/-- `a`: the (idle) state in which savepoint number `n` was made; `s`: a later state of the transaction -/
+structure AbRel (a : State) (n : Nat) (s : State) : Prop where
+  committed : s.committed = a.committed
+  alive : (∃ j, s.sps[n]? = some (SpEntry.abortSp j)) ∨ s.sps[n]? = some SpEntry.invalid
+  cache : (∃ j, s.sps[n]? = some (SpEntry.abortSp j)) →
+    ∀ k i, a.cache.get k = some i → s.cache.get k = some i
+  nextOid : a.nextOid ≤ s.nextOid
+  fresh : ∀ i k, (a.objs i).oid = none → (s.objs i).oid = some k → a.nextOid ≤ k
+
+theorem AbRel.oids {a : State} {n : Nat} {s s' : State} (h : AbRel a n s) (ho : OidStep s s') :
+    a.nextOid ≤ s'.nextOid ∧ ∀ i k, (a.objs i).oid = none → (s'.objs i).oid = some k → a.nextOid ≤ k := by
+  refine ⟨Nat.le_trans h.nextOid ho.2, ?_⟩
+  intro i k h0 hk
+  rcases ho.1 i k hk with h1 | h1
+  · exact h.fresh i k h0 h1
+  · have := h.nextOid; omega
+
+/-- the general step: the cache keeps the entries of `a`, the entry stays an `AbortSavepoint` or
+    becomes invalid -/
+theorem AbRel.frame {a : State} {n : Nat} {s s' : State} (h : AbRel a n s)
+    (hc : ∀ k i, a.cache.get k = some i → s.cache.get k = some i → s'.cache.get k = some i)
+    (hcm : s'.committed = s.committed) (ho : OidStep s s')
+    (hs : ∀ j, s.sps[n]? = some (SpEntry.abortSp j) →
+      (∃ j', s'.sps[n]? = some (SpEntry.abortSp j')) ∨ s'.sps[n]? = some SpEntry.invalid)
+    (hi : s.sps[n]? = some SpEntry.invalid → s'.sps[n]? = some SpEntry.invalid) : AbRel a n s' := by
+  refine ⟨by rw [hcm, h.committed], ?_, ?_, (h.oids ho).1, (h.oids ho).2⟩
+  · rcases h.alive with ⟨j, h2⟩ | h2
+    · exact hs j h2
+    · exact Or.inr (hi h2)
+  · rintro ⟨j', hj'⟩ k i hc0
+    rcases h.alive with h2 | h2
+    · exact hc k i hc0 (h.cache h2 k i hc0)
+    · rw [hi h2] at hj'; cases hj'
+
+theorem StableSps.abortSp {s s' : State} (h : StableSps s s') {n : Nat} {j : Bool}
+    (hn : s.sps[n]? = some (SpEntry.abortSp j)) : ∃ j', s'.sps[n]? = some (SpEntry.abortSp j') := by
+  rcases h with h | h
+  · exact ⟨j, by rw [h]; exact hn⟩
+  · exact ⟨true, by rw [h, List.getElem?_map, hn]; rfl⟩
+
+theorem AbRel.stable {a : State} {n : Nat} {s s' : State} (h : AbRel a n s)
+    (hc : s'.cache = s.cache) (hcm : s'.committed = s.committed) (ho : OidStep s s')
+    (hst : StableSps s s') : AbRel a n s' :=
+  h.frame (fun k i _ hcs => by rw [hc]; exact hcs) hcm ho (fun _ hj => Or.inl (hst.abortSp hj))
+    (fun hi => hst.invalid hi)
+
+theorem getElem?_invalidateAfter_abortSp {l : List SpEntry} {n m : Nat} {j : Bool}
+    (h : l[n]? = some (SpEntry.abortSp j)) :
+    (∃ j', (invalidateAfter m l)[n]? = some (SpEntry.abortSp j')) ∨
+    (invalidateAfter m l)[n]? = some SpEntry.invalid := by
+  rcases getElem?_invalidateAfter_some (m := m) h with h1 | h1
+  · exact Or.inl ⟨j, h1⟩
+  · exact Or.inr h1
+
+theorem getElem?_invalidateAfter_invalid {l : List SpEntry} {n m : Nat}
+    (h : l[n]? = some SpEntry.invalid) : (invalidateAfter m l)[n]? = some SpEntry.invalid := by
+  rcases getElem?_invalidateAfter_some (m := m) h with h1 | h1 <;> exact h1
+
+theorem AbRel.rollback {a : State} {n : Nat} {s : State} (hr : AbRel a n s) (h : Inv12 s)
+    (hac : ∀ k i, a.cache.get k = some i → a.committed.get k ≠ none) (m : Nat) :
+    AbRel a n (txnRollback s m).1 := by
+  unfold txnRollback
+  cases hm : s.sps[m]? with
+  | none => exact hr
+  | some e =>
+    have hr0 : AbRel a n { s with sps := invalidateAfter m s.sps } :=
+      hr.frame (fun _ _ _ hcs => hcs) rfl (OidStep.refl _)
+        (fun _ hj => getElem?_invalidateAfter_abortSp hj) (fun hi => getElem?_invalidateAfter_invalid hi)
+    have hcomm : ∀ k i, a.cache.get k = some i → s.committed.get k ≠ none := by
+      intro k i hc; rw [hr.committed]; exact hac k i hc
+    cases e with
+    | invalid => exact hr
+    | abortSp j =>
+      dsimp only
+      cases j with
+      | false => exact hr0
+      | true =>
+        simp only [if_true]
+        have hi := h.invalidated m
+        have hd := connAbort_done hi.abortReady
+        have hsps := connAbort_sps { s with sps := invalidateAfter m s.sps }
+        refine hr0.frame ?_ (shared_committed (connAbort_shared _)) (OidStep.of_shrink hd.clean.2)
+          (fun j hj => Or.inl ⟨j, by rw [hsps]; exact hj⟩) (fun hi' => by rw [hsps]; exact hi')
+        intro k i hc0 hcs
+        have hoid := hd.kept i k (h.str.cacheS k i hcs) (hcomm k i hc0)
+        have hkn := hd.clean.1.known i k hoid
+        simp only [List.not_mem_nil, or_false, hd.addedNil, Map.get_nil] at hkn
+        rcases hkn with h1 | h1
+        · exact h1
+        · cases h1
+    | real p' idx' cr' =>
+      dsimp only
+      obtain ⟨t, hsp, hj, we, w⟩ := h.real_entry hm
+      have hS' : Str [] { s with sps := invalidateAfter m s.sps } := h.str.congr rfl rfl rfl rfl
+      have F := rollbackSavepoint_facts (s := { s with sps := invalidateAfter m s.sps }) hS' hsp
+        h.regOid h.changedReg h.addedReg p' idx' cr'
+      generalize rollbackSavepoint { s with sps := invalidateAfter m s.sps } p' idx' cr' = R at *
+      have hsps : R.sps = invalidateAfter m s.sps := F.sps
+      refine hr0.frame ?_ (shared_committed F.shared) (OidStep.of_shrink F.clean.2)
+        (fun j hj => Or.inl ⟨j, by rw [hsps]; exact hj⟩) (fun hi' => by rw [hsps]; exact hi')
+      intro k i hc0 hcs
+      apply F.keepCache hS' hcs
+      rintro ⟨h1, _⟩
+      exact hcomm k i hc0 (w.crIdx k h1).2
+
+theorem AbRel.savepoint {a : State} {n : Nat} {s : State} (hr : AbRel a n s) (h : Inv12 s) (bound : Nat)
+    (hnf : (step bound s .savepoint).2.isFailed = false) : AbRel a n (stepH bound s .savepoint) := by
+  rw [stepH_of_notFailed _ _ _ hnf]
+  have hnf' : (txnSavepoint bound s).2.isFailed = false := hnf
+  show AbRel a n (txnSavepoint bound s).1
+  by_cases hn : s.needsToJoin = true
+  · rw [txnSavepoint_unjoined hn]
+    exact hr.frame (fun _ _ _ hcs => hcs) rfl (OidStep.refl _)
+      (fun j hj => Or.inl ⟨j, getElem?_append_some hj⟩) (fun hi => getElem?_append_some hi)
+  · have hj : s.needsToJoin = false := by simpa using hn
+    cases hres : (connSavepoint bound s).2 with
+    | some e =>
+      rw [txnSavepoint_fail hj bound hres] at hnf'
+      cases hnf'
+    | none =>
+      rw [txnSavepoint_ok hj bound hres]
+      have ok := connSavepoint_spOk h hj bound hres
+      generalize (connSavepoint bound s).1 = m at *
+      refine hr.frame ?_ (shared_committed ok.shared) ok.oidStep ?_ ?_
+      · intro k i _ hcs
+        exact ok.owned i k (h.str.cacheS k i hcs)
+      · intro j hj'
+        left; refine ⟨j, ?_⟩
+        show (m.sps ++ [spState m])[n]? = _
+        rw [ok.sps]; exact getElem?_append_some hj'
+      · intro hi
+        show (m.sps ++ [spState m])[n]? = _
+        rw [ok.sps]; exact getElem?_append_some hi
+
+theorem AbRel.next {a : State} {n : Nat} {s : State} (hr : AbRel a n s) (hg : Good12 s)
+    (hac : ∀ k i, a.cache.get k = some i → a.committed.get k ≠ none) (bound : Nat) (op : Op)
+    (hin : inTxn bound s op = true) : AbRel a n (stepH bound s op) := by
+  have h := hg.1
+  cases op with
+  | read i =>
+    have h1 : (ZodbModel.Conn.step bound s (.read i)).2.isFailed = false := by
+      simp only [ZodbModel.Conn.step]; split <;> rfl
+    have h2 : (ZodbModel.Conn.step bound s (.read i)).1 = (access s i).1 := by
+      simp only [ZodbModel.Conn.step]; split <;> rfl
+    rw [stepH_of_notFailed _ _ _ h1, h2]
+    obtain ⟨_, a2, a3⟩ := access_tv s i
+    exact hr.stable a2 (shared_committed (access_shared s i)) (access_oidStep s i) (Or.inl a3)
+  | modify i v =>
+    rw [stepH_of_notFailed bound s (.modify i v) (mutate_notFailed s i _)]
+    obtain ⟨_, a2, a3⟩ := mutate_tv s i (fun o => some (v, o.refs))
+    exact hr.stable a2 (shared_committed (mutate_shared s i _)) (mutate_oidStep s i _) a3
+  | link i j =>
+    rw [stepH_of_notFailed bound s (.link i j) (mutate_notFailed s i _)]
+    obtain ⟨_, a2, a3⟩ := mutate_tv s i
+      (fun o => if o.refs.contains j then none else some (o.val, o.refs ++ [j]))
+    exact hr.stable a2 (shared_committed (mutate_shared s i _)) (mutate_oidStep s i _) a3
+  | unlink i j =>
+    rw [stepH_of_notFailed bound s (.unlink i j) (mutate_notFailed s i _)]
+    obtain ⟨_, a2, a3⟩ := mutate_tv s i
+      (fun o => if o.refs.contains j then some (o.val, o.refs.filter (· != j)) else none)
+    exact hr.stable a2 (shared_committed (mutate_shared s i _)) (mutate_oidStep s i _) a3
+  | add i =>
+    have hnf : (ZodbModel.Conn.step bound s (.add i)).2.isFailed = false := by
+      show (opAdd s i).2.isFailed = false
+      unfold opAdd; dsimp only; repeat' split
+      all_goals rfl
+    rw [stepH_of_notFailed _ _ _ hnf]
+    obtain ⟨_, a2, a3⟩ := opAdd_tv s i
+    exact hr.stable a2 (shared_committed (opAdd_shared s i)) (opAdd_oidStep s i) a3
+  | commit f => simp [inTxn] at hin
+  | abort => simp [inTxn] at hin
+  | savepoint =>
+    have hnf : (ZodbModel.Conn.step bound s .savepoint).2.isFailed = false := by simpa [inTxn] using hin
+    exact hr.savepoint h bound hnf
+  | rollback m =>
+    rw [stepH_of_notFailed bound s (.rollback m) (txnRollback_notFailed s m)]
+    exact hr.rollback h hac m
+  | close => simp [inTxn] at hin
+  | open_ => simp [inTxn] at hin
+  | ext i v => simp [inTxn] at hin
+  | peek i =>
+    rw [stepH_of_notFailed bound s (.peek i) (by simp only [ZodbModel.Conn.step]; unfold opPeek; split <;> rfl)]
+    exact hr
+
+theorem runTxn_abRel {a : State} {n : Nat} (hac : ∀ k i, a.cache.get k = some i → a.committed.get k ≠ none)
+    (bound : Nat) (ops : List Op) :
+    ∀ s s', Good12 s → AbRel a n s → runTxn bound s ops = some s' → Good12 s' ∧ AbRel a n s' := by
+  induction ops with
+  | nil =>
+    intro s s' hg hr hrun
+    simp only [runTxn, Option.some.injEq] at hrun
+    subst hrun; exact ⟨hg, hr⟩
+  | cons op rest ih =>
+    intro s s' hg hr hrun
+    simp only [runTxn] at hrun
+    split at hrun
+    · rename_i hin
+      exact ih _ _ (stepH_good12 bound s op (inTxn_c12 hin) hg) (hr.next hg hac bound op hin) hrun
+    · cases hrun
+
+/-- **rollback_exact for a savepoint made before the connection joined**: rolling back to it — after
+    any program segment inside the transaction — is `Connection.abort`; every object of the connection
+    reads as it did when the savepoint was made (its committed state), everything else is disowned. -/
+theorem rollback_exact_unjoined_prog {s1 : State} (hg : Good12 s1) (hn1 : s1.needsToJoin = true)
+    (bound : Nat) (ops : List Op) {s : State}
+    (hrun : runTxn bound (stepH bound s1 .savepoint) ops = some s)
+    (hrb : (step bound s (.rollback s1.sps.length)).2 = .ok) :
+    (∀ i, ((stepH bound s1 .savepoint).objs i).jar = true →
+      reads (stepH bound s (.rollback s1.sps.length)) i = reads (stepH bound s1 .savepoint) i) ∧
+    (∀ i, ((stepH bound s1 .savepoint).objs i).jar = false →
+      ((stepH bound s (.rollback s1.sps.length)).objs i).jar = false ∧
+      ((stepH bound s (.rollback s1.sps.length)).objs i).oid = none) := by
+  have hga := stepH_good12 bound s1 .savepoint rfl hg
+  have hae : stepH bound s1 .savepoint = { s1 with sps := s1.sps ++ [.abortSp false] } := by
+    have hnf : (step bound s1 .savepoint).2.isFailed = false := by
+      show (txnSavepoint bound s1).2.isFailed = false
+      rw [txnSavepoint_unjoined hn1]; rfl
+    rw [stepH_of_notFailed _ _ _ hnf]
+    show (txnSavepoint bound s1).1 = _
+    rw [txnSavepoint_unjoined hn1]
+  have han : (stepH bound s1 .savepoint).sps[s1.sps.length]? = some (SpEntry.abortSp false) := by
+    rw [hae]; simp
+  have hantj : (stepH bound s1 .savepoint).needsToJoin = true := by rw [hae]; exact hn1
+  generalize stepH bound s1 .savepoint = a at *
+  obtain ⟨hareg, haadd, hasp⟩ := hga.1.idle hantj
+  have hac : ∀ k i, a.cache.get k = some i → a.committed.get k ≠ none := by
+    intro k i hc
+    rcases hga.1.owned k i hc with h1 | ⟨t, ht, _⟩
+    · exact h1
+    · rw [hasp] at ht; cases ht
+  have hr0 : AbRel a s1.sps.length a :=
+    ⟨rfl, Or.inl ⟨false, han⟩, fun _ _ _ h => h, Nat.le_refl _, fun i k h0 hk => by rw [h0] at hk; cases hk⟩
+  obtain ⟨hgs, hr⟩ := runTxn_abRel hac bound ops a s hga hr0 hrun
+  have hrb' : (txnRollback s s1.sps.length).2 = .ok := hrb
+  obtain ⟨j, hns⟩ : ∃ j, s.sps[s1.sps.length]? = some (SpEntry.abortSp j) := by
+    rcases hr.alive with h2 | h2
+    · exact h2
+    · unfold txnRollback at hrb'
+      rw [h2] at hrb'; cases hrb'
+  have hgR := stepH_good12 bound s (.rollback s1.sps.length) rfl hgs
+  rw [stepH_of_notFailed bound s (.rollback s1.sps.length) (txnRollback_notFailed s _)] at hgR ⊢
+  have hrR : AbRel a s1.sps.length (txnRollback s s1.sps.length).1 := hr.rollback hgs.1 hac _
+  have hspsR := (txnRollback_ok_sps hrb').1
+  have hidle : (txnRollback s s1.sps.length).1.sp = none ∧ (txnRollback s s1.sps.length).1.registered = [] ∧
+      (txnRollback s s1.sps.length).1.added = [] := by
+    unfold txnRollback
+    rw [hns]
+    dsimp only
+    cases j with
+    | false =>
+      have hsn : s.needsToJoin = true := by
+        cases hh : s.needsToJoin with
+        | true => rfl
+        | false => exact absurd (List.mem_of_getElem? hns) (hgs.1.spsFlag hh)
+      obtain ⟨i1, i2, i3⟩ := hgs.1.idle hsn
+      exact ⟨i3, i1, i2⟩
+    | true =>
+      simp only [if_true]
+      have hd := connAbort_done (hgs.1.invalidated s1.sps.length).abortReady
+      exact ⟨hd.spNone, hd.regNil, hd.addedNil⟩
+  have hRn : (txnRollback s s1.sps.length).1.sps[s1.sps.length]? = some (SpEntry.abortSp j) := by
+    rw [hspsR, getElem?_invalidateAfter_le (Nat.le_refl _)]; exact hns
+  show (∀ i, (a.objs i).jar = true → reads (step bound s (.rollback s1.sps.length)).1 i = reads a i) ∧ _
+  have hstep : (step bound s (.rollback s1.sps.length)).1 = (txnRollback s s1.sps.length).1 := rfl
+  rw [hstep] at hgR ⊢
+  generalize (txnRollback s s1.sps.length).1 = R at *
+  obtain ⟨hRsp, hRreg, hRadd⟩ := hidle
+  have hload : ∀ (u : State), Inv12 u → u.sp = none → ∀ k, loadRec u k = u.committed.get k := by
+    intro u hu husp k
+    unfold loadRec; rw [husp]; simp only; rw [hu.snapEq]
+  constructor
+  · intro i hjar
+    rw [hga.1.str.jarOid] at hjar
+    cases ho : (a.objs i).oid with
+    | none => rw [ho] at hjar; cases hjar
+    | some k =>
+      have hkn := hga.1.str.known i k ho
+      simp only [List.not_mem_nil, or_false, haadd, Map.get_nil] at hkn
+      have hca : a.cache.get k = some i := by
+        rcases hkn with h1 | h1
+        · exact h1
+        · cases h1
+      have hcR := hrR.cache ⟨j, hRn⟩ k i hca
+      have hncR : (R.objs i).status ≠ .changed := by
+        intro hch
+        have := hgR.1.changedReg i hch
+        rw [hRreg] at this; cases this
+      have hnca : (a.objs i).status ≠ .changed := by
+        intro hch
+        have := hga.1.changedReg i hch
+        rw [hareg] at this; cases this
+      obtain ⟨r, hlr, hrd⟩ := reads_clean hgR.1 hcR hncR
+      obtain ⟨r', hlr', hrd'⟩ := reads_clean hga.1 hca hnca
+      rw [hload R hgR.1 hRsp, hrR.committed] at hlr
+      rw [hload a hga.1 hasp, hlr] at hlr'
+      cases hlr'
+      rw [hrd, hrd']
+  · intro i hjar
+    rw [hga.1.str.jarOid] at hjar
+    have ho : (a.objs i).oid = none := by
+      cases ho : (a.objs i).oid with
+      | none => rfl
+      | some k => rw [ho] at hjar; cases hjar
+    have h2 : (R.objs i).oid = none := by
+      cases hk : (R.objs i).oid with
+      | none => rfl
+      | some k =>
+        exfalso
+        have hge := hrR.fresh i k ho hk
+        have hkn := hgR.1.str.known i k hk
+        simp only [List.not_mem_nil, or_false, hRadd, Map.get_nil] at hkn
+        have hcR : R.cache.get k = some i := by
+          rcases hkn with h1 | h1
+          · exact h1
+          · cases h1
+        rcases hgR.1.owned k i hcR with h1 | ⟨t, ht, _⟩
+        · rw [hrR.committed] at h1
+          have := hga.1.commFresh k h1
+          omega
+        · rw [hRsp] at ht; cases ht
+    refine ⟨?_, h2⟩
+    rw [hgR.1.str.jarOid, h2]; rfl
 
 end Proofs.Conn
